@@ -87,9 +87,12 @@ partial def codes (lencode distcode : Huff) : M Unit := do
     if ds ≥ 30 then throw "bad distance symbol"
     let dist := dbase[ds]! + (← bits dext[ds]!)
     let s ← get
-    if dist > s.out.size then throw "distance too far"
+    -- A distance reaching before the start of the output is invalid DEFLATE (zlib rejects it).  The decoder behind the
+    -- crate (flate2 / miniz_oxide, streaming through a zero-initialised 32 KiB window) reads zeros there instead; since
+    -- this decoder stands in for the crate's when the model is executed, it does the same.  The gzip trailer (CRC-32 and
+    -- length of the output) is still checked afterwards.
     let mut out := s.out
-    for _ in [0:len] do out := out.push out[out.size - dist]!
+    for _ in [0:len] do out := out.push (if dist > out.size then 0 else out[out.size - dist]!)
     set { s with out := out }
     codes lencode distcode
 
